@@ -114,6 +114,9 @@ def _explore_one(cfg, seed):
     return name, sim, res, g, init
 
 
+SIM_PATHS = 1500
+
+
 def allocate(sizes, budget, max_reps=8):
     """share a budget of behaviours between configurations: small transition covers are replayed completely (and again
     with other class variants while budget is left), the rest is shared equally by the large ones.
@@ -157,7 +160,11 @@ def run_cfgs(prop, cfgs, seed, max_paths=None, variants=8, side_jobs=()):
     alloc = allocate(exhaustive_graphs, max_paths * len(exhaustive_graphs), variants) if max_paths is not None else {}
     all_items, meta = [], []
     for cfg, sim, res, g, paths in explored:
-        if sim or max_paths is None:
+        if sim:
+            # the simulator prints every successor it evaluated, not only the one it took: the cover of that graph is a
+            # seeded, feature-prioritised sample of long behaviours around the simulated ones
+            items, n_cov = make_items(g, paths, prop, seed, max_paths=SIM_PATHS)
+        elif max_paths is None:
             items, n_cov = make_items(g, paths, prop, seed)
         else:
             items, n_cov = make_items(g, paths, prop, seed, max_paths=alloc[cfg][0], reps=alloc[cfg][1])
